@@ -39,9 +39,20 @@ func checkContentNode(c oobj, where string, depth int) []string {
 	if tt == "" {
 		return []string{where + ": node without tokenType"}
 	}
-	_, hasChildren := c.get("children")
+	cv, hasChildren := c.get("children")
+	if _, isArr := cv.([]any); hasChildren && !isArr {
+		hasChildren = false // "children": null is no list of children
+	}
 	_, hasScalar := c.get("scalarValue")
 	var bad []string
+	for i, rv := range c.arr("rules") {
+		ro, ok := rv.(oobj)
+		if !ok {
+			bad = append(bad, fmt.Sprintf("%s.rules[%d] is not an object", where, i))
+			continue
+		}
+		bad = append(bad, checkRuleNode(ro, fmt.Sprintf("%s.rules[%d]", where, i), 0)...)
+	}
 	if tt == "object" || tt == "array" {
 		if !hasChildren || hasScalar {
 			bad = append(bad, fmt.Sprintf("%s: %s node must carry children and no scalarValue", where, tt))
@@ -66,6 +77,37 @@ func checkContentNode(c oobj, where string, depth int) []string {
 	}
 	if _, ok := c.get("optional"); !ok {
 		bad = append(bad, where+": node without optional")
+	}
+	return bad
+}
+
+// checkRuleNode: a rule is a key with a value; a value that is an object or an array carries a list of children
+// (rules again), any other value carries scalarValue.
+func checkRuleNode(r oobj, where string, depth int) []string {
+	if depth > 64 {
+		return nil
+	}
+	var bad []string
+	tt := r.str("tokenType")
+	if tt == "" {
+		return []string{where + ": rule without tokenType"}
+	}
+	cv, hasChildren := r.get("children")
+	kids, isArr := cv.([]any)
+	_, hasScalar := r.get("scalarValue")
+	if tt == "object" || tt == "array" {
+		if !hasChildren || !isArr || hasScalar {
+			bad = append(bad, fmt.Sprintf("%s: %s rule must carry a list of children and no scalarValue", where, tt))
+		}
+		for i, k := range kids {
+			if ko, ok := k.(oobj); ok {
+				bad = append(bad, checkRuleNode(ko, fmt.Sprintf("%s.children[%d]", where, i), depth+1)...)
+			} else {
+				bad = append(bad, fmt.Sprintf("%s.children[%d] is not an object", where, i))
+			}
+		}
+	} else if !hasScalar || hasChildren {
+		bad = append(bad, fmt.Sprintf("%s: scalar rule (%s) must carry scalarValue and no children", where, tt))
 	}
 	return bad
 }
@@ -454,9 +496,17 @@ func sweep(args []string) *Result {
 		}
 	}
 	accepted := 0
+	// VH_CURRENT_FILE: the project about to be examined is kept in a side file, so that the parent of a sweep which the
+	// real code kills (fatal stack overflow, runtime throw) or hangs knows the project
+	cur := os.Getenv("VH_CURRENT_FILE")
 	for _, s := range all {
 		res.Cases++
 		replay := map[string]any{"kind": "sweep", "project": s.name, "text": s.text, "path": s.path}
+		if cur != "" {
+			if b, err := json.Marshal(replay); err == nil {
+				_ = os.WriteFile(cur, b, 0o644)
+			}
+		}
 		if checks["c06"] {
 			k := 3
 			if strings.HasPrefix(s.name, "depmap:") {
